@@ -82,3 +82,26 @@ register("C27",
               "1040, 1041, 1600} built by ord's own reveal-script builder (1-3 per script) and parsed back; pointer/delegate/parent compact "
               "encodings at byte-length boundaries through Inscription::new; random witness bytes",
          distinct=lambda r: json.dumps([r.get("f"), r.get("toks"), r.get("built"), r.get("value"), r.get("index")]))
+
+register("C19",
+         cmd=lambda seed, tier, out: ["http-content", "--out", out],
+         spec="ContentTrace",
+         rule="one real inscription per class (content type valid/invalid/absent, text, html; encoding none/br/other/invalid; no body; "
+              "delegate to a plain, hidden, missing, brotli-encoded or itself delegating inscription, with and without an own body; hidden by "
+              "config; a reinscription on an inscribed sat) mined on a mock chain and served by the real explorer in-process; every content "
+              "route (/content, /r/undelegated-content, /preview, /r/sat/<n>/at/<i>/content with i >= 0 and i = -1), a JSON route, the home "
+              "page, a 404 and a 400, x four Accept-Encoding values x {csp origin or not} x {decompress or not}; TLC evaluates the decision "
+              "table of spec/ContentTrace.tla on every response",
+         distinct=lambda r: json.dumps([r["route"], r["label"], r["accepts"], r["cfg"]]))
+
+register("C18",
+         cmd=lambda seed, tier, out: ["http-json", "--seed", str(seed), "--n", "3" if tier == "quick" else "24",
+                                      "--blocks", "14" if tier == "quick" else "24", "--out", out],
+         spec="ExplorerTrace",
+         rule="a fixed chain with a parent of 205 children that all sit on one sat and fill blocks with 101/100/4 inscriptions "
+              "(pagination at 100 and 200, negative indices), plus seeded random ledger and rune-dense chains; after indexing, the real "
+              "explorer serves the index in-process and every object is requested on /output, /r/utxo, /inscription (by id and by number), "
+              "/r/inscription, /r/children (+pages, +/inscriptions), /r/parents (+pages), /r/sat (+pages), /r/sat/<n>/at/<i> for i in "
+              "{0,1,99,100,204,-1,-2,-100,-101,-205,-206,5000}, /sat, /inscriptions/block (+pages), /rune, /runes, /address; TLC compares "
+              "every row with the State projected from the index tables",
+         distinct=lambda r: json.dumps([r.get("route"), r.get("out"), r.get("l"), r.get("sat"), r.get("at"), r.get("page"), r.get("h"), r.get("name"), r.get("script"), r.get("e"), r.get("n")]))
